@@ -27,7 +27,7 @@ SIM_TIME_UNIT = "partitioner operations"
 
 def scenarios(tier):
     k = 1 if tier == "quick" else 10
-    return [("ops", 900 * k)]
+    return [("ops", 3000 * k)]
 
 
 def _points(rng, n, d, mode, center=0.0, scale=1.0):
